@@ -230,6 +230,32 @@ pub fn clock_reset_reads() {
 }
 
 // ------------------------------------------------------------------------------------------------
+// recursion probe (hook H6)
+// ------------------------------------------------------------------------------------------------
+
+pub const RECURSION_PROBE: &str = "dmnsim: FEEL function bodies nested deeper than";
+pub const RECURSION_LIMIT: usize = 100;
+static MAX_DEPTH_SEEN: AtomicU64 = AtomicU64::new(0);
+
+fn function_body_cb(depth: usize) {
+  MAX_DEPTH_SEEN.fetch_max(depth as u64, Ordering::Relaxed);
+  if depth > RECURSION_LIMIT && !std::thread::panicking() {
+    // no shipped model nests function bodies anywhere near this deep; beyond it the recursion is taken to be
+    // unbounded and the run is ended here, as a panic the simulator recognises, instead of by a stack overflow
+    panic!("{} {}", RECURSION_PROBE, RECURSION_LIMIT);
+  }
+}
+
+/// Installs the probe that ends runaway recursion through FEEL function bodies.
+pub fn install_recursion_probe() {
+  dmntk_feel::verif::set_function_body(Some(function_body_cb));
+}
+
+pub fn max_function_depth_seen() -> u64 {
+  MAX_DEPTH_SEEN.swap(0, Ordering::Relaxed)
+}
+
+// ------------------------------------------------------------------------------------------------
 // installation
 // ------------------------------------------------------------------------------------------------
 
